@@ -13,7 +13,8 @@
    with include_data=False on the imported dataset and its restore, comparing each stage. *)
 EXTENDS Naturals, Sequences, FiniteSets, TLC
 
-CONSTANTS N, Formats, ColKinds
+CONSTANTS N, Formats, ColKinds,
+          Profiles   \* value alphabets: "plain" (NaN, negatives) and "edge" (infinities, -1, 16-bit extremes, text with a comma) - see harness/adapters/export.py
 
 VARIABLES cfg, exp, stage, picked
 vars == <<cfg, exp, stage, picked>>
@@ -39,8 +40,8 @@ Init == cfg = [shape |-> "-"] /\ exp = [ok |-> FALSE] /\ stage = "init" /\ picke
 Pick ==
     /\ ~picked
     /\ picked' = TRUE
-    /\ \E shape \in {"table", "image"}, cols \in ColSets, sub \in DOMAIN Subsets, f \in Formats :
-         /\ cfg' = [shape |-> shape, cols |-> cols, sub |-> sub, fmt |-> f]
+    /\ \E shape \in {"table", "image"}, cols \in ColSets, sub \in DOMAIN Subsets, f \in Formats, pr \in Profiles :
+         /\ cfg' = [shape |-> shape, cols |-> cols, sub |-> sub, fmt |-> f, vals |-> pr]
          /\ exp' = Expect(shape, cols, sub, f)
     /\ stage' = "built"
 
